@@ -609,4 +609,174 @@ theorem removeSubtree_exact (cfg : Cfg S α) (t : Bool) (st : St S α) (hF : For
       obtain ⟨⟨km, e, a⟩, nd⟩ := h
       rw [hx] at e; cases e; exact ⟨a, nd⟩⟩
 
+/-! ### the forest invariant through the other arena operations -/
+
+/-- what `Forest` reads of a motion -/
+def proj (m : Motion S) : Option Nat × List Nat × Bool := (m.parent, m.children, m.alive)
+
+theorem proj_eq {x y : Motion S} (h : proj x = proj y) : x.parent = y.parent ∧ x.children = y.children ∧ x.alive = y.alive := by
+  unfold proj at h
+  simp only [Prod.mk.injEq] at h
+  exact h
+
+theorem proj_fwd {ar ar' : Array (Motion S)} (h : ∀ k : Nat, (ar'[k]?).map proj = (ar[k]?).map proj) {k : Nat} {x : Motion S}
+    (hx : ar[k]? = some x) : ∃ x', ar'[k]? = some x' ∧ x'.parent = x.parent ∧ x'.children = x.children ∧ x'.alive = x.alive := by
+  have := h k
+  rw [hx] at this
+  cases hx' : ar'[k]? with
+  | none => rw [hx'] at this; cases this
+  | some x' =>
+    rw [hx'] at this
+    simp only [Option.map_some, Option.some.injEq] at this
+    exact ⟨x', rfl, proj_eq this⟩
+
+theorem Forest.congr {ar ar' : Array (Motion S)} (h : ∀ k : Nat, (ar'[k]?).map proj = (ar[k]?).map proj) (hF : Forest ar) :
+    Forest ar' := by
+  have h' : ∀ k : Nat, (ar[k]?).map proj = (ar'[k]?).map proj := fun k => (h k).symm
+  refine ⟨?_, ?_, ?_, ?_⟩
+  · intro p c x' hx' hc
+    obtain ⟨x, hx, _, e2, _⟩ := proj_fwd h' hx'
+    obtain ⟨hlt, cm, hcm, hcp⟩ := hF.back p c x hx (e2 ▸ hc)
+    obtain ⟨cm', hcm', f1, _, _⟩ := proj_fwd h hcm
+    exact ⟨hlt, cm', hcm', f1.trans hcp⟩
+  · intro p x' hx'
+    obtain ⟨x, hx, _, e2, _⟩ := proj_fwd h' hx'
+    rw [← e2]; exact hF.nodup p x hx
+  · intro c p cm' hcm' ha hp
+    obtain ⟨cm, hcm, e1, _, e3⟩ := proj_fwd h' hcm'
+    obtain ⟨pm, hpm, hpa, hin⟩ := hF.listed c p cm hcm (e3.trans ha) (e1.trans hp)
+    obtain ⟨pm', hpm', _, f2, f3⟩ := proj_fwd h hpm
+    exact ⟨pm', hpm', f3.trans hpa, f2 ▸ hin⟩
+  · intro p c x' hx' ha hc
+    obtain ⟨x, hx, _, e2, e3⟩ := proj_fwd h' hx'
+    obtain ⟨cm, hcm, hca⟩ := hF.down p c x hx (e3.trans ha) (e2 ▸ hc)
+    obtain ⟨cm', hcm', _, _, f3⟩ := proj_fwd h hcm
+    exact ⟨cm', hcm', f3.trans hca⟩
+
+theorem addMotion_get (cfg : Cfg S α) (st : St S α) (m : Motion S) (k : Nat) :
+    (addMotion cfg st m).ar[k]? = ((st.ar.push m)[k]?).map
+      (fun x => if m.parent = some k then { x with children := x.children ++ [st.ar.size] } else x) := by
+  unfold addMotion
+  simp only []
+  rw [ar_setDisc]
+  cases hp : m.parent with
+  | none =>
+    simp only []
+    cases (st.ar.push m)[k]? with
+    | none => rfl
+    | some x => simp
+  | some p =>
+    simp only []
+    rw [getElem?_modifyAt]
+    by_cases e : p = k
+    · subst e
+      rw [if_pos rfl]
+      cases (st.ar.push m)[p]? with
+      | none => rfl
+      | some x => simp
+    · rw [if_neg e]
+      have : ¬ (some p = some k) := fun h => e (Option.some.inj h)
+      cases (st.ar.push m)[k]? with
+      | none => rfl
+      | some x => simp [this]
+
+/-- `new Motion` under a live parent (or as a root) keeps the forest -/
+theorem addMotion_forest (cfg : Cfg S α) {st : St S α} (hF : Forest st.ar) (m : Motion S) (hc : m.children = [])
+    (ha : m.alive = true) (hp : ∀ p, m.parent = some p → ∃ pm, st.ar[p]? = some pm ∧ pm.alive = true) :
+    Forest (addMotion cfg st m).ar := by
+  have hne : m.parent ≠ some st.ar.size := by
+    intro h
+    obtain ⟨pm, hpm, _⟩ := hp _ h
+    have := (Array.getElem?_eq_some_iff.1 hpm).1
+    omega
+  have old : ∀ (k : Nat) (x : Motion S), st.ar[k]? = some x → ∃ x', (addMotion cfg st m).ar[k]? = some x' ∧
+      x'.parent = x.parent ∧ x'.alive = x.alive ∧
+      x'.children = (if m.parent = some k then x.children ++ [st.ar.size] else x.children) := by
+    intro k x hx
+    have hk : k < st.ar.size := (Array.getElem?_eq_some_iff.1 hx).1
+    refine ⟨_, by rw [addMotion_get, Array.getElem?_push, if_neg (by omega), hx]; rfl, ?_, ?_, ?_⟩ <;> split <;> rfl
+  have new : (addMotion cfg st m).ar[st.ar.size]? = some m := by
+    rw [addMotion_get, Array.getElem?_push, if_pos rfl]
+    simp only [Option.map_some, if_neg hne]
+  have inv : ∀ (k : Nat) (x' : Motion S), (addMotion cfg st m).ar[k]? = some x' → (k = st.ar.size ∧ x' = m) ∨
+      ∃ x, st.ar[k]? = some x ∧ x'.parent = x.parent ∧ x'.alive = x.alive ∧
+        x'.children = (if m.parent = some k then x.children ++ [st.ar.size] else x.children) := by
+    intro k x' hx'
+    by_cases e : k = st.ar.size
+    · subst e; rw [new] at hx'; cases hx'; exact Or.inl ⟨rfl, rfl⟩
+    · right
+      cases hx : st.ar[k]? with
+      | none =>
+        rw [addMotion_get, Array.getElem?_push, if_neg e, hx] at hx'; cases hx'
+      | some x =>
+        obtain ⟨x'', e1, r⟩ := old k x hx
+        rw [e1] at hx'; cases hx'
+        exact ⟨x, rfl, r⟩
+  have present_lt : ∀ (q c : Nat) (x : Motion S), st.ar[q]? = some x → c ∈ x.children → c < st.ar.size := by
+    intro q c x hx hcx
+    obtain ⟨_, cm, hcm, _⟩ := hF.back q c x hx hcx
+    exact (Array.getElem?_eq_some_iff.1 hcm).1
+  refine ⟨?_, ?_, ?_, ?_⟩
+  · -- back
+    intro q c x' hx' hcx
+    rcases inv q x' hx' with ⟨_, rfl⟩ | ⟨x, hx, _, _, e3⟩
+    · rw [hc] at hcx; cases hcx
+    · have hq : q < st.ar.size := (Array.getElem?_eq_some_iff.1 hx).1
+      rw [e3] at hcx
+      have hcase : c ∈ x.children ∨ (m.parent = some q ∧ c = st.ar.size) := by
+        split at hcx
+        · rename_i hpq
+          rcases List.mem_append.1 hcx with h | h
+          · exact Or.inl h
+          · exact Or.inr ⟨hpq, List.mem_singleton.1 h⟩
+        · exact Or.inl hcx
+      rcases hcase with h | ⟨hpq, rfl⟩
+      · obtain ⟨hlt, cm, hcm, hcp⟩ := hF.back q c x hx h
+        obtain ⟨cm', hcm', f1, _, _⟩ := old c cm hcm
+        exact ⟨hlt, cm', hcm', f1.trans hcp⟩
+      · exact ⟨hq, m, new, hpq⟩
+  · -- nodup
+    intro q x' hx'
+    rcases inv q x' hx' with ⟨_, rfl⟩ | ⟨x, hx, _, _, e3⟩
+    · rw [hc]; exact List.nodup_nil
+    · rw [e3]
+      split
+      · refine List.nodup_append.2 ⟨hF.nodup q x hx, by simp, ?_⟩
+        intro a ha' b hb hab
+        rw [List.mem_singleton] at hb
+        subst hab; subst hb
+        exact absurd (present_lt q _ x hx ha') (Nat.lt_irrefl _)
+      · exact hF.nodup q x hx
+  · -- listed
+    intro c p cm' hcm' hca hcp
+    rcases inv c cm' hcm' with ⟨rfl, rfl⟩ | ⟨cm, hcm, e1, e2, _⟩
+    · obtain ⟨pm, hpm, hpa⟩ := hp p hcp
+      obtain ⟨pm', hpm', _, f2, f3⟩ := old p pm hpm
+      refine ⟨pm', hpm', f2.trans hpa, ?_⟩
+      rw [f3, if_pos hcp]
+      exact List.mem_append_right _ (List.mem_singleton.2 rfl)
+    · obtain ⟨pm, hpm, hpa, hin⟩ := hF.listed c p cm hcm (e2 ▸ hca) (e1 ▸ hcp)
+      obtain ⟨pm', hpm', _, f2, f3⟩ := old p pm hpm
+      refine ⟨pm', hpm', f2.trans hpa, ?_⟩
+      rw [f3]
+      split
+      · exact List.mem_append_left _ hin
+      · exact hin
+  · -- down
+    intro q c x' hx' hxa hcx
+    rcases inv q x' hx' with ⟨_, rfl⟩ | ⟨x, hx, _, e2, e3⟩
+    · rw [hc] at hcx; cases hcx
+    · rw [e3] at hcx
+      have hcase : c ∈ x.children ∨ c = st.ar.size := by
+        split at hcx
+        · rcases List.mem_append.1 hcx with h | h
+          · exact Or.inl h
+          · exact Or.inr (List.mem_singleton.1 h)
+        · exact Or.inl hcx
+      rcases hcase with h | rfl
+      · obtain ⟨cm, hcm, hca⟩ := hF.down q c x hx (e2 ▸ hxa) h
+        obtain ⟨cm', hcm', _, f2, _⟩ := old c cm hcm
+        exact ⟨cm', hcm', f2.trans hca⟩
+      · exact ⟨m, new, ha⟩
+
 end OmplModel.LBKPIECE1
